@@ -35,7 +35,7 @@ pub fn direct_decode(method: u16, raw: &[u8]) -> Result<Vec<u8>, std::io::Error>
     Ok(out)
 }
 
-fn method_u16(m: zip::CompressionMethod) -> u16 {
+pub fn method_u16(m: zip::CompressionMethod) -> u16 {
     #[allow(deprecated)]
     m.to_u16()
 }
